@@ -109,6 +109,13 @@ def cmp_string(cx, cached, cell, role, where):
     if cell.kind == "s" and cell.value == cached:
         j.acc.count("url_like_labels_found_equal") if re.match(r"^(https?|ftp)://", cached) else None
         return
+    if cell.kind == "n" and isinstance(cell.value, float) and cell.value == int(cell.value) and cached == "%d" % int(cell.value):
+        # a text cache over a numeric cell (a date label inside a category tree: the serial): the cache is what General shows
+        j.acc.count("text_caches_equal_to_the_general_rendering_of_a_numeric_cell")
+        return
+    if cell.kind == "n" and re.fullmatch(r"-?[0-9]+", cached) and cx.chart1904 != cx.wb.date1904 and 1461 <= abs(cell.value - int(cached)) < 1463:
+        # (the same date label under the open finding of the two date systems: the chart says 1904, the workbook is written 1900)
+        return j.bad("date-system-mismatch", "%s: cell %r (workbook date1904=%s) vs text cache %r (chart date1904=%s): same date, different serials" % (where, cell.value, cx.wb.date1904, cached, cx.chart1904))
     if re.match(r"^(mailto:|internal:|external:|file://)", cached):
         return j.bad("cell-text-rewritten-by-hyperlink-conversion:%s" % role, "%s holds %r where the cache has %r" % (where, cell.value, cached))
     j.bad("cell-differs:%s:string" % role, "%s holds %s %r, the cache has %r" % (where, cell.kind, cell.value, cached))
